@@ -164,6 +164,11 @@ func (w *World) Actions(rec *Rec, h Hooks) map[string]func(*rapid.T) {
 			d, m := w.ConnCreate(t, box)
 			rec.Op("conn create %s in %s err=%v", m, box, d.Err)
 		},
+		"connCreateDelete": func(t *rapid.T) {
+			box := w.PickBox(t)
+			d1, d2, m := w.ConnCreateDelete(t, box)
+			rec.Op("conn create %s in %s err=%v; removed again: %s err=%v", m, box, d1.Err, d2.Update, d2.Err)
+		},
 		"connFlags": func(t *rapid.T) {
 			d := w.ConnFlags(t)
 			rec.Op("conn %s err=%v", d.Update, d.Err)
